@@ -138,6 +138,49 @@ Theorem C10_deadline_forwarded_refuted :
 Proof. exact deadline_forwarded_refuted. Qed.
 Print Assumptions C10_deadline_forwarded_refuted.
 
+(* ---- Unblock.  The reader goroutine of a Mux is started in one place, once (MuxConsts.reader_started_once, read from
+   mux.go on every run); a Mux created WithBlockedRead parks it until the first Unblock (m_blocked); every other
+   Unblock — on a Mux that was never blocked, or a repeated one — does nothing ---- *)
+Theorem C10_unblock_noop_when_unblocked : forall s, m_blocked s = false -> fst (step s EvUnblock) = s.
+Proof. exact (unblock_noop_when_unblocked max_payload_size). Qed.
+Print Assumptions C10_unblock_noop_when_unblocked.
+
+Theorem C10_unblock_idempotent : forall s, fst (step (fst (step s EvUnblock)) EvUnblock) = fst (step s EvUnblock).
+Proof. exact (unblock_idempotent max_payload_size). Qed.
+Print Assumptions C10_unblock_idempotent.
+
+(* on a Mux whose reader runs, any number of Unblock calls anywhere in any schedule: the same final state and, call for
+   call, the same results of all other calls; hence the same delivery on every connection *)
+Theorem C10_unblocks_change_nothing : forall evs s, m_blocked s = false ->
+  fst (run s evs) = fst (run s (filter not_unblock evs)) /\
+  filter (fun eo => not_unblock (fst eo)) (snd (run s evs)) = snd (run s (filter not_unblock evs)).
+Proof. exact (unblocks_change_nothing max_payload_size). Qed.
+Print Assumptions C10_unblocks_change_nothing.
+
+Theorem C10_unblocks_delivery_unaffected : forall evs s id, m_blocked s = false ->
+  received id (snd (run s evs)) = received id (snd (run s (filter not_unblock evs))) /\
+  queue_in id (fst (run s evs)) = queue_in id (fst (run s (filter not_unblock evs))).
+Proof. exact (unblocks_delivery_unaffected max_payload_size). Qed.
+Print Assumptions C10_unblocks_delivery_unaffected.
+
+(* the variant in which Unblock can start a second reader on the same trunk does not have the property *)
+Theorem C10_unblock_second_reader_refuted :
+  let evs := [EvUnblock; EvReader; EvRead 1 true] in
+  let '(s, tr) := run_var5 false max_payload_size (init_mux (trunk [(1, [7; 8; 9])]) 4 [1]) evs in
+  map snd tr = [ROk; ROk; RErr EErr] /\
+  let '(s', tr') := run (init_mux (trunk [(1, [7; 8; 9])]) 4 [1]) evs in
+  map snd tr' = [ROk; ROk; RData [7; 8; 9]].
+Proof. exact unblock_second_reader_refuted. Qed.
+Print Assumptions C10_unblock_second_reader_refuted.
+
+(* a blocked Mux: nothing is delivered until the first Unblock, everything after it; a second Unblock changes nothing *)
+Example C10_example_blocked :
+  reader_started_once = true /\
+  let evs := [EvReader; EvRead 1 true; EvUnblock; EvReader; EvUnblock; EvRead 1 true] in
+  let '(s, tr) := run (set_blocked true (init_mux (trunk [(1, [7; 8; 9])]) 4 [1])) evs in
+  map snd tr = [ROk; RBlock; ROk; ROk; ROk; RData [7; 8; 9]] /\ m_blocked s = false.
+Proof. vm_compute. repeat split. Qed.
+
 (* ---- the caller's buffer (conn.Read's guard, copy and count; which of len/cap the guard tests is read
    from mux.go on every run: MuxConsts.read_checks_len) ---- *)
 
